@@ -90,6 +90,8 @@ def worker_main(argv):
                 out.flush()
                 continue
             rec.update(res)
+            if res.get("violations"):
+                rec["hashseed"] = os.environ.get("PYTHONHASHSEED")
             if res.get("violations") or index < 3 * a.nworkers and a.worker == 0:
                 rec["case"] = b64(case)
                 rec["case_repr"] = repr(case)[:3000]
@@ -141,7 +143,7 @@ def write_replay(pid, key, rec, seed, n):
     os.makedirs(d, exist_ok=True)
     safe = "".join(c if c.isalnum() or c in "-_" else "_" for c in key)[:80]
     path = os.path.join(d, f"{safe}.{n}.json")
-    json.dump({"property": pid, "key": key, "seed": seed, "index": rec.get("i"),
+    json.dump({"property": pid, "key": key, "seed": seed, "index": rec.get("i"), "hashseed": rec.get("hashseed"),
                "violations": rec.get("violations"), "case": rec.get("case"),
                "case_repr": rec.get("case_repr")}, open(path, "w"), indent=1)
     return path
@@ -150,6 +152,11 @@ def run_replay(pid, path):
     check_import()
     prop = load_prop(pid)
     data = json.load(open(path))
+    hs = data.get("hashseed")
+    if hs is not None and os.environ.get("PYTHONHASHSEED") != str(hs):
+        # workers run under different hash seeds (set / dict-of-str iteration order is part of the explored state): replay under the recorded one
+        env = dict(os.environ, PYTHONHASHSEED=str(hs))
+        os.execve(PY, [PY, "-m", "vmon.runner", pid, "--replay", path], env)
     case = unb64(data["case"])
     if hasattr(prop, "worker_setup"):
         prop.worker_setup("quick")
@@ -209,7 +216,7 @@ def _run(prop, pid, a, seed, cases, nworkers, scratch, t0):
                pid, "--tier", a.tier, "--seed", str(seed), "--worker", str(w), "--nworkers", str(nworkers),
                "--cases", str(cases), "--out", out, "--progress", prog]
         log = open(os.path.join(wd, "log.txt"), "w")
-        p = subprocess.Popen(cmd, cwd=wd, env=env, stdout=log, stderr=subprocess.STDOUT)
+        p = subprocess.Popen(cmd, cwd=wd, env=dict(env, PYTHONHASHSEED=str((seed * 31 + w) % 1000)), stdout=log, stderr=subprocess.STDOUT)
         procs.append((w, p, out, prog, log, wd))
     deadline = time.time() + timeout
     timed_out = []
